@@ -702,6 +702,9 @@ def g_fit(o, M, best=None, allow_none=True, max_n=3, max_m=3):
         else:
             a["n"] = o.randint(0, hi_n)
             a["m"] = o.randint(0, hi_m if ntemps > 1 else min(hi_m, 1))
+            if npts <= 5 and o.random() < 0.5:
+                a["n"] = 3                      # as many (or more) orders as points: the library only warns about it
+                a["m"] = min(a["m"], 1)
     else:
         if allow_none and npts <= 16 and o.random() < 0.15:
             pass
